@@ -240,10 +240,59 @@ static void emit(FILE *outf, const Fn &f, const Call &c, const Out &o, const cha
   fwrite(s.data(), 1, s.size(), outf);
 }
 
+// functions of one family: the same name up to the last '_' segment (gsl_sf_debye_1 .. _6, gsl_sf_bessel_J0 / J1 ...)
+static std::string family(const std::string &n) { size_t p = n.rfind('_'); return p == std::string::npos ? n : n.substr(0, p); }
+static bool benign(const Call &c) { for (double a : c.a) if (!std::isfinite(a) || std::fabs(a) > 3) return false; return true; }
+
 static void record(FILE *outf, const Fn &f, const Call &c) {
   Out o0 = call_once(f, c, true), o1 = call_once(f, c, false), o2 = call_once(f, c, false);
   bool det = memcmp(&o1.v, &o2.v, sizeof(double)) == 0 && same(o1.d, o2.d) && same(o1.h, o2.h) &&
              o1.haserr == o2.haserr && o1.err == o2.err;
+  // ... and once more after the other functions of its family were evaluated at the same arguments (a result may
+  // not depend on what was called before): only for small finite arguments, value requests to the others
+  if (det && benign(c) && !(f.type & (FUNCADD_STRING_VALUED | FUNCADD_RANDOM_VALUED))) {
+    std::string fam = family(f.name);
+    std::vector<size_t> sib;
+    for (size_t j = 0; j < fns.size() && sib.size() < 12; ++j) {
+      const Fn &g = fns[j];
+      if (&g == &f || g.nargs != f.nargs || (g.type & (FUNCADD_STRING_VALUED | FUNCADD_RANDOM_VALUED)) || family(g.name) != fam) continue;
+      sib.push_back(j);
+    }
+    if (!sib.empty()) {
+      // in a child of its own (one of the others may hang or die at these arguments: that is reported at its own
+      // case, here it only means "no observation"); the child answers 1 = same result as before, 0 = different
+      int pp[2];
+      struct itimerval zero = {{0, 0}, {0, 0}}, old;
+      setitimer(ITIMER_REAL, &zero, &old);          // this call's own time limit does not run while the child does
+      if (pipe(pp) == 0) {
+        fflush(outf);
+        pid_t pid = fork();
+        if (pid == 0) {
+          close(pp[0]);
+          alarm(1);
+          // history: f and the others somewhere else first (every real argument moved by 1/2), then the others at
+          // these arguments, then f at these arguments again
+          { Call cs = c; cs.mode = 'v'; cs.measure = false;
+            for (size_t q = 0; q < cs.a.size(); ++q) if (q >= cs.dig.size() || cs.dig[q] != '1') cs.a[q] += 0.5;
+            call_once(f, cs, false);
+            for (size_t j : sib) { Call cg = cs; cg.fn = (int)j; call_once(fns[j], cg, false); } }
+          for (size_t j : sib) { Call cg = c; cg.fn = (int)j; cg.mode = 'v'; cg.measure = false; call_once(fns[j], cg, false); }
+          Out o3 = call_once(f, c, false);
+          char same3 = memcmp(&o1.v, &o3.v, sizeof(double)) == 0 && same(o1.d, o3.d) && same(o1.h, o3.h) && o1.haserr == o3.haserr && o1.err == o3.err;
+          if (write(pp[1], &same3, 1) != 1) _exit(3);
+          _exit(0);
+        }
+        close(pp[1]);
+        char ans = 1;
+        ssize_t got = pid > 0 ? read(pp[0], &ans, 1) : 0;
+        close(pp[0]);
+        int st = 0;
+        if (pid > 0) waitpid(pid, &st, 0);
+        if (got == 1 && WIFEXITED(st) && WEXITSTATUS(st) == 0) det = ans != 0;
+      }
+      setitimer(ITIMER_REAL, &old, nullptr);
+    }
+  }
   emit(outf, f, c, o0, "nan", det);
   bool meas = c.measure && c.mode != 'v' && !o1.haserr && !(f.type & (FUNCADD_STRING_VALUED | FUNCADD_RANDOM_VALUED)) && std::isfinite(o1.v);
   if (meas) {
